@@ -66,7 +66,7 @@ CHECKS["C12"] = mc("E1-choice-tree",
   "Rates off the 1/12 lattice and sub-2^-24 rounding are outside the explored space.", "4/C12")
 CHECKS["C13"] = mc("E1-choice-tree + E3",
   "stateless model checking over the RNG with exact laws on marker selectors; exhaustive u32-boundary weight vectors for the builders",
-  "12 construction shapes of WeightedPair (left chains incl. Result-chained, right chains, balanced, mixed) and DynWeighted lists x every weight vector over 0..3 (thorough 0..4) within an execution budget: member law exactly w_i/sum, on every leaf exactly one member is asked to select and it is the one whose individual is returned (call-recording members), zero-weight members unreachable, all-zero => zero-weight error; the same ratios with the weights scaled to totals just below 2^32 (units 2^30, 357913941, 858993459; static shapes); DynWeighted lists also with every weight multiplied by odd units above 2^32 (4294967311, 10000000019, (2^60/total)|1), where rand's 64-bit sampler maps the grid cells to values exactly; weight vectors over {0,1,u32::MAX-1,u32::MAX} build iff the total fits in u32.",
+  "12 construction shapes of WeightedPair (left chains incl. Result-chained, right chains, balanced, mixed) and DynWeighted lists x every weight vector over 0..3 (thorough 0..4) within an execution budget, and dynamic lists of 6..40, around 64, 128, 256 (thorough every length up to 130, around 512, 1000) members with three weight patterns: member law exactly w_i/sum, on every leaf exactly one member is asked to select and it is the one whose individual is returned (call-recording members), zero-weight members unreachable, all-zero => zero-weight error; the same ratios with the weights scaled to totals just below 2^32 (units 2^30, 357913941, 858993459; static shapes); DynWeighted lists also with every weight multiplied by odd units above 2^32 (4294967311, 10000000019, (2^60/total)|1), where rand's 64-bit sampler maps the grid cells to values exactly; weight vectors over {0,1,u32::MAX-1,u32::MAX} build iff the total fits in u32.",
   "Weight vectors whose lcm of node sums makes the tree exceed the budget are skipped and counted.", "4/C13")
 CHECKS["C14"] = mc("E3-bounded-exhaustive x fault plans",
   "bounded-exhaustive enumeration of composition trees x fault plans (deviation bound 2) on the real combinators through the erased layer, differential against the CompRef interpreter",
